@@ -1,6 +1,6 @@
 (* C06/Property.v — property theorems only. *)
 From Coq Require Import String List Bool.
-From Verif Require Import Base.Str C06.Model C06.Spec C06.Proofs.
+From Verif Require Import Base.Str C06.Model C06.Spec C06.Proofs C06.Reflect.
 From VerifGen Require Import C06Tables.
 
 (* C06: for every outstanding set, InResponseTo placement, status, version and shape the modelled
@@ -21,3 +21,8 @@ Theorem c06_table_injective :
   /\ length statuscode2exception = length defined_codes.
 Proof. exact table_injective. Qed.
 Print Assumptions c06_table_injective.
+
+(* the boolean spec that Coq evaluates on the implementation's recorded outputs implies the stated spec *)
+Theorem c06_spec_b_sound : forall x v, spec_b x v = true -> spec x v.
+Proof. exact spec_b_sound. Qed.
+Print Assumptions c06_spec_b_sound.
